@@ -1,4 +1,7 @@
 import Verif.Proto
-import Verif.Model.ExitCode
-import Verif.Gen.ExitTable
+import Verif.Props.C07
+import Verif.Props.C11
+import Verif.Props.C12
+import Verif.Props.C13
+import Verif.Props.C14
 import Verif.Props.C18
